@@ -442,6 +442,41 @@ fn iss_pairs(alg: Alg, fmt: Fmt, l: &mut Local) {
     }
 }
 
+/// Harness-signed tokens whose header carries a kid that two issuers share: after issuer A's token verified,
+/// a token claiming issuer B (same kid) signed with A's key must still be rejected under B's key.
+fn kid_confusion(alg: Alg, fmt: Fmt, l: &mut Local) {
+    let (iss_a, iss_b) = ("https://a.example", "https://b.example");
+    let hdr = json!({"alg": alg.name(), "kid": "1", "typ": "sd+jwt"});
+    let mk = |iss: &str, signer: usize| -> String {
+        let payload = json!({"iss": iss, "exp": gen::EXP, "a": 1, "_sd_alg": "sha-256"});
+        let jwt = tokens::sign_json(&hdr, &payload, tokens::jw_alg(alg), &keys::issuer_enc(alg, signer));
+        Parts { jwt, disclosures: vec![], kb: None }.serialize(fmt)
+    };
+    let resolver = move |iss: &str, _h: &jsonwebtoken::Header| -> DecodingKey {
+        if iss == iss_a {
+            keys::issuer_dec(alg, 0)
+        } else {
+            keys::issuer_dec(alg, 1)
+        }
+    };
+    let case = json!({"kind": "c02_kid", "alg": alg.name(), "fmt": fmt.name()});
+    for round in 0..2 {
+        // honest A, honest B, then the two cross-signed tokens, twice over
+        for (tok, must_accept, what) in [(mk(iss_a, 0), true, "A signed by A"), (mk(iss_b, 1), true, "B signed by B"), (mk(iss_b, 0), false, "B signed by A"), (mk(iss_a, 1), false, "A signed by B")] {
+            l.evals += 1;
+            let out = drive::verify_with(&tok, Box::new(resolver), None, None, fmt);
+            match (&out, must_accept) {
+                (Out::Ok(_), true) => l.outcome("control_accepted"),
+                (Out::Err { .. }, false) => {
+                    l.outcome("iss_confusion_rejected");
+                    l.nontrivial += 1;
+                }
+                _ => l.violation(Violation::new("verify", if out.is_panic() { "panic" } else if must_accept { "err_where_ok_required" } else { "ok_where_err_required" }, "c02_shared_kid", what, format!("round {round}: {what}: {}", out.describe()), case.clone())),
+            }
+        }
+    }
+}
+
 fn control(b: &Base, l: &mut Local) {
     let pres = b.parts.serialize(b.cfg.fmt);
     for with in [true, false] {
@@ -489,6 +524,7 @@ pub fn run(rep: &Report) {
     }
     par_for(rep, cfs.len(), |i, l| iss_confusion(cfs[i].0, cfs[i].1, l));
     par_for(rep, cfs.len(), |i, l| iss_pairs(cfs[i].0, cfs[i].1, l));
+    par_for(rep, cfs.len(), |i, l| kid_confusion(cfs[i].0, cfs[i].1, l));
     rep.scope_done(json!({"scope": "36 bases (3 algs x 2 formats x kb off/on x 3 credentials): controls, payload edits, mixes, signature truncations, alg rewrites (17 values x kept/empty/removed/HMAC-with-public-key/attacker key), 7 other keys, iss confusion", "evaluations": rep.evals()}));
     // character-level sweep: quick on 12 bases (one per alg x fmt x kb), thorough on all 36
     let chosen: Vec<&Base> = bs.iter().collect();
@@ -614,6 +650,11 @@ pub fn replay(case: &Value) -> Vec<Violation> {
                     control(b, &mut l);
                 }
             }
+        }
+        "c02_kid" => {
+            let alg = Alg::from_name(case["alg"].as_str().unwrap());
+            let fmt = if case["fmt"] == "json" { Fmt::Json } else { Fmt::Compact };
+            kid_confusion(alg, fmt, &mut l);
         }
         "c02_iss_pair" => {
             let alg = Alg::from_name(case["alg"].as_str().unwrap());
